@@ -243,6 +243,12 @@ class C05(Prop):
                     err = e.get('error') if isinstance(e, dict) else None
                     if not (isinstance(err, dict) and isinstance(err.get('code'), int) and isinstance(err.get('message'), str) and 'id' in e):
                         return 'the error reply carried by the ProtocolError is not a well-formed error response'
+                    # ... in the wire format of THIS connection's protocol class: 1.0 responses carry result and error and no
+                    # version tag, 2.0 responses the tag and the error alone (an auto-detecting connection may use either)
+                    if case['proto'] == 'v1' and ('result' not in e or 'jsonrpc' in e):
+                        return 'the error reply of a JSON-RPC 1.0 connection is not a 1.0 response (result and error members, no version tag)'
+                    if case['proto'] in ('v2', 'loose') and (e.get('jsonrpc') != '2.0' or 'result' in e):
+                        return 'the error reply of a JSON-RPC 2.0 connection is not a 2.0 response (version tag, error member alone)'
         return None
 
     def classify(self, case, obs, clause):
@@ -275,6 +281,24 @@ class C05(Prop):
                 if not o['answered'] and not o['closed']:
                     out.append(Failure({'kind': 'session', 'proto': p, 'msgs': [list(m[:200]) for m in msgs], 'lens': [len(m) for m in msgs]}, o,
                                        'after these messages the session neither answers a valid request nor has closed the connection'))
+        # well-formed JSON that violates the protocol, with multi-byte characters lying across every offset from 40 to 330
+        # (what a preview / log line of "the first N bytes" trips over)
+        nm_ = 0
+        for p in (['v2'] if ctx['tier'] == 'quick' else ['v2', 'loose', 'auto', 'v1']):
+            for ch in ('\u00e9', '\u20ac', '\U0001f600'):
+                for pad in range(len(ch.encode())):
+                    for shape in ('request', 'response', 'batch'):
+                        body = 'a' * pad + ch * (300 // len(ch.encode()))
+                        msg = {'request': '{"jsonrpc":"2.0","method":5,"id":1,"x":"%s"}', 'response': '{"jsonrpc":"2.0","id":987,"result":"%s"}',
+                               'batch': '["%s",5]'}[shape] % body
+                        o = session_survives([msg.encode()], p)
+                        nm_ += 1
+                        ctx['extra_evals'] += 1
+                        if not o['answered'] and not o['closed']:
+                            out.append(Failure({'kind': 'multibyte_run', 'proto': p, 'char': ch, 'pad': pad, 'shape': shape, 'msg': msg[:80] + '...'}, o,
+                                               'after a protocol-violating message holding a run of multi-byte characters the session neither answers a valid request nor has closed the connection'))
+                            break
+        ctx['notes'].append(f'protocol violations holding runs of 2-, 3- and 4-byte characters at every alignment: {nm_} messages through a serving session')
         # nesting at the edge of what the JSON decoder accepts: values that can just be decoded but - echoed in a reply one or
         # two levels further down - cannot be encoded any more.  Every depth around the decoder's limit, as id and as params
         import json as _json
